@@ -913,3 +913,85 @@ package eval
 //@        (forall ((k Int)) (! (=> (old (mapin (KEYMAP $cc) k)) (and (<= 0 (old (mapval (KEYMAP $cc) k))) (< (old (mapval (KEYMAP $cc) k)) 256))) :pattern ((mapval (KEYMAP $cc) k)))))
 //@   ensures [registered-bound-names-read-their-value] (forall ((k Int)) (! (=> (and (old (mapin (KEYMAP $cc) k)) (old (mapin $vals k)) (not (ISLISTIN (old (mapval $vals k)))))
 //@        (FETCHED (fld $ret0 VariableFetcher) (old (mapval (KEYMAP $cc) k)) k (unifyScalar (old (mapval $vals k))))) :pattern ((mapval $vals k))))
+
+// ---------------------------------------------------------------------------
+// C16 — cost model of Reordering.  float64 is Real (IEEE rounding / NaN not modelled: assumption of C16).
+//@ func Config.getCosts C16
+//@   requires [config] (not (= $cc 0))
+//@   ensures [per-name-entry-wins] (=> (mapin (fld $cc CostsMap) $nodeName) (= $ret0 (mapval (fld $cc CostsMap) $nodeName)))
+//@   ensures [class-default] (=> (not (mapin (fld $cc CostsMap) $nodeName))
+//@        (= $ret0 (ite (= $nodeType 2) (ite (mapin (fld $cc CostsMap) "variable") (mapval (fld $cc CostsMap) "variable") 7.0)
+//@                 (ite (or (= $nodeType 3) (= $nodeType 4)) (ite (mapin (fld $cc CostsMap) "operator") (mapval (fld $cc CostsMap) "operator") 10.0) 5.0))))
+//@   assigns
+
+//@ ghost (define-fun-rec sumCosts ((cost (Array Int Real)) (a (Array Int Int)) (o Int) (n Int)) Real
+//@   (ite (<= n 0) 0.0 (+ (sumCosts cost a o (- n 1)) (select cost (select a (+ o (- n 1)))))))
+//@ ghost (define-fun baseCost ((kind Int) (nchildren Int)) Real
+//@   (ite (= kind 1) 1.0 (ite (= kind 2) 5.0 (ite (= kind 4) 5.0 (ite (= kind 3) (+ (to_real (+ nchildren 1)) 5.0) (ite (= kind 5) 4.0 10.0))))))
+//@ macro (OPCOST $conf $n) (ite (or (= (KIND $n) 2) (= (KIND $n) 3) (= (KIND $n) 4))
+//@      (let ((name (p_string (fld $n value))) (m (fld $conf CostsMap)))
+//@        (ite (mapin m name) (mapval m name)
+//@          (ite (= (KIND $n) 2) (ite (mapin m "variable") (mapval m "variable") 7.0) (ite (mapin m "operator") (mapval m "operator") 10.0))))
+//@      0.0)
+//@ func calculateNodeCosts C16
+//@   requires [node] (and (not (= $conf 0)) (not (= $root 0)) (not (= (fld $root node) 0))
+//@        (=> (or (= (KIND (fld $root node)) 2) (= (KIND (fld $root node)) 3) (= (KIND (fld $root node)) 4)) (is.string (fld (fld $root node) value)))
+//@        (=> (and (= (KIND (fld $root node)) 5) (= (fld (fld $root node) value) (V_keyword "if"))) (>= (len (fld $root children)) 3))
+//@        (forall ((j Int)) (! (=> (and (<= (off (fld $root children)) j) (< j (+ (off (fld $root children)) (len (fld $root children))))) (not (= (select (arr (fld $root children)) j) 0))) :pattern ((select (arr (fld $root children)) j)))))
+//@   ensures [cost-formula] (let ((n (fld $root node)) (cs (fld $root children)) (oc (old (heap F_astNode.cost))))
+//@        (= (fld $root cost) (+ (baseCost (KIND n) (len cs)) (OPCOST $conf n)
+//@             (ite (and (= (KIND n) 5) (= (fld n value) (V_keyword "if")))
+//@                  (let ((c0 (select oc (CHILD $root 0))) (c1 (select oc (CHILD $root 1))) (c2 (select oc (CHILD $root 2)))) (+ c0 (ite (>= c1 c2) c1 c2)))
+//@                  (sumCosts oc (arr cs) (off cs) (len cs))))))
+//@   ensures [only-this-cost-written] (forall ((r Int)) (! (=> (not (= r $root)) (= (select (heap F_astNode.cost) r) (select (old (heap F_astNode.cost)) r))) :pattern ((select (heap F_astNode.cost) r))))
+//@   assigns F_astNode.cost
+//@   loop 1 (rangeindex)
+//@     invariant [partial-sum] (= $childrenCost (sumCosts (old (heap F_astNode.cost)) (arr (fld $root children)) (off (fld $root children)) (+ $rangeindex 1)))
+//@     invariant [nothing-written-yet] (= (heap F_astNode.cost) (old (heap F_astNode.cost)))
+
+//@ func optimizeReordering.$1 C16
+//@   requires [indices] (and (not (= $root 0)) (<= 0 $i) (< $i (len (fld $root children))) (<= 0 $j) (< $j (len (fld $root children))) (not (= (CHILD $root $i) 0)) (not (= (CHILD $root $j) 0)))
+//@   ensures [less-is-cost-order] (= $ret0 (< (select (heap F_astNode.cost) (CHILD $root $i)) (select (heap F_astNode.cost) (CHILD $root $j))))
+//@   assigns
+
+// Ordering laws of the cost specification (pure SMT over Real; one step obligation per node kind, the induction
+// over the tree / the operand list is the usual structural one and is spelled out in DESIGN section 8, C16):
+//@ lemma cost-sum-monotone-step C16
+//@   ; induction step of: pointwise smaller operand costs give a smaller sum
+//@   (declare-const ca (Array Int Real)) (declare-const cb (Array Int Real)) (declare-const a (Array Int Int)) (declare-const o Int) (declare-const n Int)
+//@   (assert (>= n 1))
+//@   (assert (<= (sumCosts ca a o (- n 1)) (sumCosts cb a o (- n 1))))
+//@   (assert (<= (select ca (select a (+ o (- n 1)))) (select cb (select a (+ o (- n 1))))))
+//@   (assert (not (<= (sumCosts ca a o n) (sumCosts cb a o n))))
+//@ lemma cost-node-monotone C16
+//@   ; (L2) raising an entry never lowers a node's cost: operand sum / if-combination and own entry are monotone
+//@   (declare-const base Real) (declare-const op Real) (declare-const op2 Real) (declare-const s Real) (declare-const s2 Real)
+//@   (declare-const c0 Real) (declare-const c1 Real) (declare-const c2 Real) (declare-const d0 Real) (declare-const d1 Real) (declare-const d2 Real)
+//@   (assert (and (<= op op2) (<= s s2) (<= c0 d0) (<= c1 d1) (<= c2 d2)))
+//@   (assert (not (and (<= (+ base op s) (+ base op2 s2))
+//@                     (<= (+ base op (+ c0 (ite (>= c1 c2) c1 c2))) (+ base op2 (+ d0 (ite (>= d1 d2) d1 d2)))))))
+//@ lemma cost-node-independent C16
+//@   ; (L1) equal operand costs and an equal own entry give an equal cost (an entry for a name that does not occur is never read)
+//@   (declare-const base Real) (declare-const op Real) (declare-const s Real) (declare-const s2 Real) (declare-const op2 Real)
+//@   (assert (and (= op op2) (= s s2)))
+//@   (assert (not (= (+ base op s) (+ base op2 s2))))
+//@ lemma cost-node-dominated-by-large-entry C16
+//@   ; (L3) if some operand (or the node's own entry) costs at least v + k and the others are bounded below independently of v,
+//@   ; the node costs at least v + k' with k' independent of v: a large enough entry exceeds any sibling that does not mention the name
+//@   (declare-const v Real) (declare-const base Real) (declare-const k Real)
+//@   (declare-const own Real) (declare-const ownlb Real) (declare-const s Real) (declare-const slb Real)
+//@   (declare-const c0 Real) (declare-const c1 Real) (declare-const c2 Real) (declare-const l0 Real) (declare-const l1 Real) (declare-const l2 Real)
+//@   (assert (and (>= own ownlb) (>= s slb) (>= c0 l0) (>= c1 l1) (>= c2 l2)))
+//@   (assert (not (and
+//@      (=> (>= own (+ v k)) (>= (+ base own s) (+ v (+ base k slb))))
+//@      (=> (>= s (+ v k)) (>= (+ base own s) (+ v (+ base ownlb k))))
+//@      (=> (>= c0 (+ v k)) (>= (+ base own (+ c0 (ite (>= c1 c2) c1 c2))) (+ v (+ base ownlb k (ite (>= l1 l2) l1 l2)))))
+//@      (=> (>= c1 (+ v k)) (>= (+ base own (+ c0 (ite (>= c1 c2) c1 c2))) (+ v (+ base ownlb l0 k))))
+//@      (=> (>= c2 (+ v k)) (>= (+ base own (+ c0 (ite (>= c1 c2) c1 c2))) (+ v (+ base ownlb l0 k)))))))
+//@ lemma stable-sort-order-law C16
+//@   ; what the stable sort by (<) on costs gives for two operands a (earlier in source) and b: b moves ahead of a only if cost(b) < cost(a);
+//@   ; so with cost(a) <= cost(b) source order is kept (equal costs keep source order), and raising cost(b) can only keep or establish that
+//@   (declare-const ca Real) (declare-const cb Real) (declare-const cb2 Real)
+//@   (define-fun overtakes ((x Real) (y Real)) Bool (< y x))   ; later operand with cost y overtakes earlier operand with cost x
+//@   (assert (<= cb cb2))
+//@   (assert (not (and (=> (<= ca cb) (not (overtakes ca cb))) (=> (not (overtakes ca cb)) (not (overtakes ca cb2))))))
